@@ -28,7 +28,10 @@ SERVICE_SCN = [dict(file="scenarios/service_cover.ndjson", cfg=SERVICE_SCN_CFG),
                dict(file="scenarios/service_F20.ndjson", cfg=SERVICE_SCN_CFG)]
 # MC_Service_D: a provider priced in a denom that needs an exchange rate (finding F20), 5 heights
 SERVICE_MC = T([dict(cfg="MC_Service.cfg", timeout=1500, heap="4g"), dict(cfg="MC_Service_D.cfg", timeout=900, heap="4g")],
-               [dict(cfg="MC_Service_big.cfg", timeout=3400, heap="6g"), dict(cfg="MC_Service_D.cfg", timeout=900, heap="4g")])
+               # thorough: 9 heights / timeouts 1-2 (one context); two concurrent contexts (rank orders, consumer
+               # funds shared); binding operations under a shared owner; the F20 universe
+               [dict(cfg="MC_Service_big.cfg", timeout=3400, heap="6g"), dict(cfg="MC_Service_two.cfg", timeout=3000, heap="6g"),
+                dict(cfg="MC_Service_bind.cfg", timeout=1500, heap="4g"), dict(cfg="MC_Service_D.cfg", timeout=900, heap="4g")])
 
 # histories recorded for the cross-module checks C11 / C12: plain transactions only (module-owned contexts
 # are driven by keeper calls from the harness' observation hook, which a byte-for-byte replay cannot repeat)
